@@ -80,6 +80,8 @@ pub struct Compiler {
     scope_index: usize,
     pub filters: Vec<Rc<CompiledFunction>>,
     pub filter_end: Option<Rc<CompiledFunction>>,
+    // first instruction operand that did not fit its encoding, if any
+    operand_overflow: Option<CompileError>,
 }
 
 impl Compiler {
@@ -105,6 +107,7 @@ impl Compiler {
             scope_index: 0,
             filters: Vec::new(),
             filter_end: None,
+            operand_overflow: None,
         }
     }
 
@@ -219,10 +222,23 @@ impl Compiler {
 
     // Helper to emit instruction and return its starting position
     pub fn emit(&mut self, op: Opcode, operands: &[usize], line: usize) -> usize {
+        self.check_operands(op, operands, line);
         let ins = definitions::make(op, operands, line);
         let pos = self.add_instruction(ins);
         self.set_last_instruction(op, pos);
         pos
+    }
+
+    // Remember the first operand that cannot be encoded (too many constants,
+    // globals, locals, arguments, elements or too long a jump); 'compile'
+    // reports it instead of producing truncated bytecode.
+    fn check_operands(&mut self, op: Opcode, operands: &[usize], line: usize) {
+        if self.operand_overflow.is_none() && !definitions::operands_fit(op, operands) {
+            self.operand_overflow = Some(CompileError::new(
+                "program too large: an instruction operand exceeds its encoding limit",
+                line,
+            ));
+        }
     }
 
     fn load_symbol(&mut self, sym: Rc<Symbol>, line: usize) {
@@ -307,6 +323,7 @@ impl Compiler {
     fn change_operand(&mut self, op_pos: usize, operand: usize) {
         let op = Opcode::from(self.get_curr_instructions().code[op_pos]);
         let line = self.get_curr_instructions().lines[op_pos];
+        self.check_operands(op, &[operand], line);
         let new_instruction = definitions::make(op, &[operand], line);
         // lines remain the same
         self.replace_instruction(op_pos, &new_instruction.code);
@@ -322,6 +339,9 @@ impl Compiler {
 
     pub fn compile(&mut self, pgm: Program) -> Result<(), CompileError> {
         self.compile_program(pgm)?;
+        if let Some(err) = self.operand_overflow.take() {
+            return Err(err);
+        }
         Ok(())
     }
 
